@@ -134,6 +134,9 @@ func ListSplits(repo, diamondID string, stores context2.Stores, opts ...Option) 
 
 	workers.Wait()
 
+	// batches come in key order: sort the whole result by start time
+	sort.Sort(splits)
+
 	return splits, err // we may have some batches resolved before the error occurred
 }
 
